@@ -29,61 +29,11 @@ import (
 //
 // and replaces it by head_addall(K, seq(hs)).
 func HeaderAddLoopSummary(e *FuncEnc, li *loopInfo) bool {
-	// the loop visits the elements of one slice in order (a range loop, or
-	// `for i := 0; i < len(s); i++`) and does nothing but w.Header().Add(K, s[i])
-	if len(li.body) < 2 || len(li.body) > 3 {
-		return false
-	}
-	var src ssa.Value
-	var add *ssa.Call
-	var idxUse ssa.Value
-	for _, b := range li.blocks() {
-		for _, in := range b.Instrs {
-			switch x := in.(type) {
-			case *ssa.IndexAddr:
-				if src != nil {
-					return false
-				}
-				src, idxUse = x.X, x.Index
-			case *ssa.UnOp, *ssa.Jump, *ssa.DebugRef, *ssa.Phi, *ssa.BinOp, *ssa.If:
-			case *ssa.Call:
-				if x.Call.IsInvoke() {
-					if x.Call.Method.Name() != "Header" {
-						return false
-					}
-					continue
-				}
-				if bi, ok := x.Call.Value.(*ssa.Builtin); ok && bi.Name() == "len" {
-					continue
-				}
-				g := x.Call.StaticCallee()
-				if g == nil || g.String() != "(net/http.Header).Add" || add != nil {
-					return false
-				}
-				add = x
-			default:
-				return false
-			}
-		}
-	}
-	if src == nil || add == nil || !loopVisitsAll(li, src, idxUse) {
-		return false
-	}
-	if in, ok := src.(ssa.Instruction); ok && li.body[in.Block()] {
-		return false
-	}
-	key, ok := constString(add.Call.Args[1])
+	src, key, ok := headerAddLoopMatch(li)
 	if !ok {
 		return false
 	}
-	// the added value must be the ranged element
-	if u, ok := add.Call.Args[2].(*ssa.UnOp); !ok || func() bool { ia, ok := u.X.(*ssa.IndexAddr); return !ok || ia.X != src }() {
-		return false
-	}
-	st, ok := src.Type().Underlying().(*types.Slice)
-	if !ok {
-		return false
-	}
+	st := src.Type().Underlying().(*types.Slice)
 	e.needProjections()
 	seq := e.seqOf(e.v(src), st.Elem(), e.cur)
 	old := e.cur.trace
@@ -97,6 +47,72 @@ func HeaderAddLoopSummary(e *FuncEnc, li *loopInfo) bool {
 	e.cur.trace = nu
 	e.Assumed["loop `for _, h := range hs { w.Header().Add(K, h) }` summarised as head_addall(K, seq(hs)) (engine rule, pattern-matched)"] = true
 	return true
+}
+
+// HeaderAddLoopMatches: the loop is one that HeaderAddLoopSummary replaces.
+func HeaderAddLoopMatches(li *loopInfo) bool {
+	_, _, ok := headerAddLoopMatch(li)
+	return ok
+}
+
+func headerAddLoopMatch(li *loopInfo) (ssa.Value, string, bool) {
+	// the loop visits the elements of one slice in order (a range loop, or
+	// `for i := 0; i < len(s); i++`) and does nothing but w.Header().Add(K, s[i])
+	if len(li.body) < 2 || len(li.body) > 3 {
+		return nil, "", false
+	}
+	var src ssa.Value
+	var add *ssa.Call
+	var idxUse ssa.Value
+	for _, b := range li.blocks() {
+		for _, in := range b.Instrs {
+			switch x := in.(type) {
+			case *ssa.IndexAddr:
+				if src != nil {
+					return nil, "", false
+				}
+				src, idxUse = x.X, x.Index
+			case *ssa.UnOp, *ssa.Jump, *ssa.DebugRef, *ssa.Phi, *ssa.BinOp, *ssa.If:
+			case *ssa.Call:
+				if x.Call.IsInvoke() {
+					if x.Call.Method.Name() != "Header" {
+						return nil, "", false
+					}
+					continue
+				}
+				if bi, ok := x.Call.Value.(*ssa.Builtin); ok && bi.Name() == "len" {
+					continue
+				}
+				g := x.Call.StaticCallee()
+				if g == nil || g.String() != "(net/http.Header).Add" || add != nil {
+					return nil, "", false
+				}
+				add = x
+			default:
+				return nil, "", false
+			}
+		}
+	}
+	if src == nil || add == nil || !loopVisitsAll(li, src, idxUse) {
+		return nil, "", false
+	}
+	if in, ok := src.(ssa.Instruction); ok && li.body[in.Block()] {
+		return nil, "", false
+	}
+	key, ok := constString(add.Call.Args[1])
+	if !ok {
+		return nil, "", false
+	}
+	// the added value must be the ranged element
+	if u, ok := add.Call.Args[2].(*ssa.UnOp); !ok || func() bool { ia, ok := u.X.(*ssa.IndexAddr); return !ok || ia.X != src }() {
+		return nil, "", false
+	}
+	st, ok := src.Type().Underlying().(*types.Slice)
+	if !ok {
+		return nil, "", false
+	}
+	_ = st
+	return src, key, true
 }
 
 type writeShape struct {
@@ -278,6 +294,7 @@ func (cr *CheckRun) CheckWrites(job *EmittedJob) {
 	}
 	wf := &WriteFamily{Em: em, RF: job.RF}
 	em.W.LoopSummary = HeaderAddLoopSummary
+	em.W.LoopSummaryMatch = HeaderAddLoopMatches
 	entry := em.Entry.Name
 	timeout := 10
 	type key struct{ m, t string }
